@@ -7,6 +7,8 @@ from .unit import Unit
 def main():
     path = 'units/%s.rs' % sys.argv[1]
     u = Unit(path)
+    for it in u.items:
+        it.drop_body = False     # the stored copy keeps the whole real text
     lines = u.build(kf_on=True)   # kf lines are kept below from the stored copy
     src = open(path).read().split('\n')
     out = []
@@ -20,7 +22,7 @@ def main():
             out.append(l)
             i += 1
             # copy directives
-            while src[i].strip().startswith(('//@sub', '//@auto', '//@name', '//@keep-vis', '//@rule')):
+            while src[i].strip().startswith(('//@sub', '//@auto', '//@name', '//@keep-vis', '//@rule', '//@drop-body')):
                 out.append(src[i]); i += 1
             # skip the old body
             while src[i].strip() != '//@end':
